@@ -24,7 +24,7 @@ from harness import core
 from harness.props import _crew_common as CC
 
 MANIFEST_ENTRY = {
-    "text": "Lean theorem C08 proves, for every method description, day budget, crew count and work plan (any number of requests with any survey/travel times, partial progress and per-site weather), by induction over the loop of deploy_crews: every crew's remaining minutes stay >= 0; the minutes charged to a crew over its visits (travel + survey) plus its trip home never exceed the budget (day_budget), which is 60*min(workday, daylight) when daylight is considered (budget_daylight, day_budget_workday; fractional-hour version over any ordered field: step_budget_fractional, budget_daylight_fractional); a completed or partial survey leaves the trip home (complete_trip_home_fits); no more crews are used than the method has (crews_used), and a mobile method configured with a positive crew_count has exactly that many crews whatever LDAR-Sim's own estimate, so crews deployed <= crew_count and crew-minutes <= crew_count x budget (methodCrews, configured_crews_bound, methodCrews_table); a site is visited only if temperature, wind and precipitation are all inside the envelope (weather_visited, checkWeather_iff) and an unworkable site's report is unchanged and re-queued (weather_unworkable); every planned request gets exactly one report (one_report_per_request); the reports handed back unfinished are again admissible requests, so the day theorems iterate over all days (out_reqOk); the daylight cap is part of C08_statement; the loop is homogeneous in the unit of time (day_unit_free), so instances with fractional minutes are integer instances in a finer unit. Table obligations regenerated from /repo on every run: no function of the modelled modules mutates a class-/module-level container or is cached (crew_no_cross_case_state), __reduce__/_reconstruct argument orders agree (pickle_roundtrip_order); same-process history (colliding names/ids/dates, both orders, fresh process), shared-input construction, boundary dates, real travel-time shapes and pickling round trips are exercised against the real code. The model is tied on every run to the real Method.survey_site (exhaustive on R<=24,S<=8,T<=4,P<=S x deployment type x weather outcome), to multi-day continuations, to the real Method/ComponentLevelMethod.deploy_crews for all four method classes, to the real daylight and weather lookup code, and the property's clauses are evaluated directly on the implementation outputs; whole simulations add the same clauses on wrapper traces.",
+    "text": "Lean theorem C08 proves, for every method description, day budget, crew count and work plan (any number of requests with any survey/travel times, partial progress and per-site weather), by induction over the loop of deploy_crews: every crew's remaining minutes stay >= 0; the minutes charged to a crew over its visits (travel + survey) plus its trip home never exceed the budget (day_budget), which is 60*min(workday, daylight) when daylight is considered (budget_daylight, day_budget_workday; fractional-hour version over any ordered field: step_budget_fractional, budget_daylight_fractional); a completed or partial survey leaves the trip home (complete_trip_home_fits); no more crews are used than the method has (crews_used), and a mobile method configured with a positive crew_count has exactly that many crews whatever LDAR-Sim's own estimate, so crews deployed <= crew_count and crew-minutes <= crew_count x budget (methodCrews, configured_crews_bound, methodCrews_table); a site is visited only if temperature, wind and precipitation are all inside the envelope (weather_visited, checkWeather_iff) and an unworkable site's report is unchanged and re-queued (weather_unworkable); every planned request gets exactly one report (one_report_per_request); the reports handed back unfinished are again admissible requests, so the day theorems iterate over all days (out_reqOk); the daylight cap is part of C08_statement; the loop is homogeneous in the unit of time (day_unit_free), so instances with fractional minutes are integer instances in a finer unit. Table obligations regenerated from /repo on every run: no function of the modelled modules mutates a class-/module-level container or is cached (crew_no_cross_case_state), __reduce__/_reconstruct argument orders agree (pickle_roundtrip_order); same-process history (colliding names/ids/dates, both orders, fresh process), shared-input construction, boundary dates, real travel-time shapes and pickling round trips are exercised against the real code. The model is tied on every run to the real Method.survey_site (exhaustive on R<=24,S<=8,T<=4,P<=S x deployment type x weather outcome), to multi-day continuations, to the real Method/ComponentLevelMethod.deploy_crews for all four method classes, to the real daylight and weather lookup code, and the property's clauses are evaluated directly on the implementation outputs; whole simulations add the same clauses on wrapper traces. Layer 3 (every run): Method.survey_site (with _determine_if_site_survey_can_be_completed) is translated from the current source to Lean (harness/extract/py2lean.py, crew_src.py -> Generated/CrewSrc.lean) and Props/CrewTie.lean is re-checked: report, crew minutes, returned values and dates after the translated call are Crew.surveyStep / applyStep for all inputs; a method outside the translated subset is a note, a failing tie theorem a broken obligation.",
     "design_ref": "DESIGN.md 5.8, 4.2",
     "note": "trusted: Lean kernel + propext/Classical.choice/Quot.sound; the hand-written model (tied by exhaustive/sampled correspondence, not proof); harness adapters and stubs (StubSite, synthetic weather cube, stub ephem); minutes are integers in the theorems of the day loop; fractional minutes are covered by homogeneity (day_unit_free) + step-level theorems over ordered fields, and tied by the fractional-daylight stage with exact Fractions (float rounding of non-dyadic daylight hours is outside); sampled travel times are inputs; the interplay with the queue over several days (request really served again) belongs to C07",
     "technique": "Lean 4 invariant proof over the deploy_crews loop + exhaustive/differential correspondence with the real classes + direct oracle",
